@@ -7,6 +7,7 @@ mod journalcheck;
 mod monchecks;
 mod monitors;
 mod ops;
+mod precomp;
 mod pure;
 mod statecheck;
 mod structs;
@@ -61,6 +62,12 @@ fn main() {
         "C20" => dbcheck::c20(&mut ctx),
         "C21" => histcheck::c21(&mut ctx),
         "C22" => histcheck::c22(&mut ctx),
+        "C23" => precomp::c23(&mut ctx),
+        "C24-gen" => {
+            let path = args.iter().position(|a| a == "--cases").and_then(|i| args.get(i + 1)).cloned().unwrap_or_else(|| "/verif/harness/target/c24-cases.jsonl".into());
+            precomp::c24_gen(&ctx, &path);
+            std::process::exit(0);
+        }
         "C25" => monchecks::c25(&mut ctx),
         "C27" => pure::c27(&mut ctx),
         "C28" => monchecks::c28(&mut ctx),
